@@ -11,8 +11,9 @@
 (*         (first on the first byte, last on the final one).  Assumptions  *)
 (*         (USBInStreamInterface): a byte is held until it is accepted     *)
 (*         (valid & ready), valid stays high from first to last, data_pid  *)
-(*         is stable while a packet is in progress, a new request is only  *)
-(*         made once the previous packet has left (tx_valid low again).    *)
+(*         is stable from the request until the PID byte was accepted (it  *)
+(*         may change right after), a new request is only made once the    *)
+(*         previous packet has left (tx_valid low again).                  *)
 (*         tx_ready is an arbitrary bit per cycle.                         *)
 (*  Ref  : req/rpid/cons/fin = the request in progress, the payload bytes  *)
 (*         consumed so far and whether `last` was consumed; wire = bytes   *)
@@ -73,7 +74,7 @@ Legal(i) ==
     /\ Held => (i.sv /\ i.sf = in.sf /\ i.sl = in.sl /\ i.sp = in.sp)            \* hold until accepted
     /\ (req = "data" /\ ~fin /\ ~Held) => (i.sv /\ ~i.sf)                        \* valid stays high from first to last
     /\ (req # "none" /\ fin) => ~i.sv                                            \* nothing more until the packet has left
-    /\ req # "none" => i.pid = rpid                                              \* data_pid stable during the packet
+    /\ (req # "none" /\ ~(out.tv /\ Len(wire) >= 1)) => i.pid = rpid              \* data_pid stable until the PID byte has left
 
 \* The observation relation: name of the first violated clause.
 Failing(i, o) ==
@@ -118,6 +119,15 @@ Step(i, o) ==
        /\ sent' = IF end THEN [pid |-> rpid, payload |-> offd, wire |-> wire, ok |-> TRUE] ELSE NoSent
        /\ nreq' = nreq + (IF Fresh(i) THEN 1 ELSE 0)
        /\ nsent' = nsent + (IF end THEN 1 ELSE 0)
+
+\* A reset of the clock domain while the producer is quiet (no byte on offer; a packet may be on the wire): the
+\* outputs of the cycle are still judged, then the request in progress is forgotten (its packet is cut short -- the
+\* statement says nothing about it) and the generator must behave like a fresh one.
+ResetLegal(i) == ~i.sv /\ (req # "data" \/ fin)
+ResetStep(i, o) ==
+    /\ in' = i /\ out' = [sr |-> FALSE, tv |-> FALSE, td |-> 0]
+    /\ req' = "none" /\ rpid' = 0 /\ cons' = <<>> /\ fin' = FALSE /\ crcv' = 0 /\ wire' = <<>> /\ stuck' = 0
+    /\ offd' = <<>> /\ sent' = NoSent /\ nreq' = nsent /\ UNCHANGED nsent
 
 NoIn  == [sv |-> FALSE, sf |-> FALSE, sl |-> FALSE, sp |-> 0, pid |-> 0, rdy |-> FALSE]
 NoOut == [sr |-> FALSE, tv |-> FALSE, td |-> 0]
